@@ -1,5 +1,5 @@
 (* Lemmas behind Props/C10.v (and reused by C09). *)
-From Coq Require Import String.
+From Coq Require Import String Permutation.
 From TT Require Import Lib.Base Lib.Bytestr Gen.Streamtabs Model.StreamRec Spec.C10 Corr.C10.
 Open Scope list_scope.
 
@@ -99,22 +99,103 @@ Qed.
 Lemma levs_eqb_spec a b : list_eqb lev_eqb a b = true <-> a = b.
 Proof. apply list_eqb_spec. exact lev_eqb_spec. Qed.
 
-Lemma sum_eqb_spec a b : sum_eqb a b = true <-> a = b.
+Lemma sl_eqb_spec a b : sl_eqb a b = true <-> a = b.
 Proof.
-  unfold sum_eqb, ids_eqb.
+  unfold sl_eqb, ids_eqb.
   rewrite (pair_eqb_spec _ _ Nat.eqb_eq
             (pair_eqb_spec _ _ nats_eqb_spec
               (pair_eqb_spec _ _ nats_eqb_spec
                 (pair_eqb_spec _ _ nats_eqb_spec
-                  (pair_eqb_spec _ _ nats_eqb_spec
-                    (pair_eqb_spec _ _ nats_eqb_spec bool_eqb_spec)))))).
-  destruct a, b; unfold sum_tuple; simpl. split; intro H; inversion H; reflexivity.
+                  (pair_eqb_spec _ _ nats_eqb_spec nats_eqb_spec))))).
+  destruct a, b; unfold sl_tuple; simpl. split; intro H; inversion H; reflexivity.
 Qed.
 
-Theorem obs_eqb_spec a b : obs_eqb a b = true <-> alpha a = alpha b.
+(* ================= lists compared as multisets ================= *)
+Section Perm.
+  Context {A : Type} (eqb : A -> A -> bool) (eqb_spec : forall a b, eqb a b = true <-> a = b).
+
+  Lemma remove1_perm x l : forall l', remove1 eqb x l = Some l' -> Permutation l (x :: l').
+  Proof.
+    induction l as [|y r IH]; intros l' H; simpl in H; [discriminate|].
+    destruct (eqb x y) eqn:E.
+    - apply eqb_spec in E. subst. inversion H; subst. apply Permutation_refl.
+    - destruct (remove1 eqb x r) as [r'|]; [|discriminate]. inversion H; subst.
+      eapply perm_trans; [apply perm_skip; apply IH; reflexivity | apply perm_swap].
+  Qed.
+  Lemma remove1_in x l : In x l -> exists l', remove1 eqb x l = Some l'.
+  Proof.
+    induction l as [|y r IH]; simpl; intro H; [contradiction|].
+    destruct (eqb x y) eqn:E; [eauto|].
+    destruct H as [H|H].
+    - subst. assert (X : eqb x x = true) by (apply eqb_spec; reflexivity). congruence.
+    - destruct (IH H) as [r' ->]. eauto.
+  Qed.
+  Theorem perm_eqb_spec l1 : forall l2, perm_eqb eqb l1 l2 = true <-> Permutation l1 l2.
+  Proof.
+    induction l1 as [|x r IH]; intro l2; simpl.
+    - destruct l2; split; intro H; try reflexivity; try discriminate.
+      apply Permutation_nil in H. discriminate.
+    - destruct (remove1 eqb x l2) as [l2'|] eqn:R.
+      + rewrite IH. pose proof (remove1_perm _ _ _ R) as P. split; intro H.
+        * eapply perm_trans; [apply perm_skip; exact H | apply Permutation_sym; exact P].
+        * apply Permutation_cons_inv with x. eapply perm_trans; [exact H | exact P].
+      + split; [discriminate|]. intro H.
+        destruct (remove1_in x l2) as [l' E]; [|congruence].
+        eapply Permutation_in; [exact H | left; reflexivity].
+  Qed.
+
+  Lemma tail_permb_spec n a b : tail_permb eqb n a b = true <-> tail_perm n a b.
+  Proof.
+    unfold tail_permb, tail_perm. rewrite andb_true_iff, perm_eqb_spec, (list_eqb_spec eqb eqb_spec). tauto.
+  Qed.
+End Perm.
+
+Lemma firstn_length_app {A} (a b : list A) : firstn (List.length a) (a ++ b) = a.
+Proof. induction a as [|x a IH]; simpl; [destruct b; reflexivity | rewrite IH; reflexivity]. Qed.
+Lemma skipn_length_app {A} (a b : list A) : skipn (List.length a) (a ++ b) = b.
+Proof. induction a as [|x a IH]; simpl; [reflexivity | exact IH]. Qed.
+Lemma app_eq_length {A} (a : list A) : forall b c d, a ++ b = c ++ d -> List.length a = List.length c -> a = c /\ b = d.
 Proof.
-  unfold obs_eqb, alpha. rewrite !andb_true_iff, recs_eqb_spec, sum_eqb_spec, levs_eqb_spec.
-  split; [intros [[-> ->] ->]; reflexivity | intro H; inversion H; auto].
+  induction a as [|x a IH]; intros b [|y c] d H L; simpl in *; try discriminate; [tauto|].
+  inversion H; subst. destruct (IH b c d H2) as [-> ->]; [lia | tauto].
+Qed.
+
+Lemma sum_equivb_spec pre fa fb : sum_equivb pre fa fb = true <-> sum_equiv pre fa fb.
+Proof.
+  unfold sum_equivb, sum_equiv. rewrite !andb_true_iff, Nat.eqb_eq, !(tail_permb_spec Nat.eqb Nat.eqb_eq). tauto.
+Qed.
+
+Theorem obs_eqb_spec a b : obs_eqb a b = true <-> obs_equiv a b.
+Proof.
+  unfold obs_eqb, obs_equiv.
+  rewrite !andb_true_iff, !recs_eqb_spec, !levs_eqb_spec, sl_eqb_spec, sum_equivb_spec, bool_eqb_spec,
+    (perm_eqb_spec rec_eqb rec_eqb_spec), (perm_eqb_spec (list_eqb lev_eqb) levs_eqb_spec).
+  tauto.
+Qed.
+
+(* obs_equiv is an equivalence relation *)
+Lemma tail_perm_refl {A} n (a : list A) : tail_perm n a a.
+Proof. split; [reflexivity | apply Permutation_refl]. Qed.
+Lemma tail_perm_sym {A} n (a b : list A) : tail_perm n a b -> tail_perm n b a.
+Proof. intros [H1 H2]. split; [symmetry; exact H1 | apply Permutation_sym; exact H2]. Qed.
+Lemma tail_perm_trans {A} n (a b c : list A) : tail_perm n a b -> tail_perm n b c -> tail_perm n a c.
+Proof. intros [H1 H2] [H3 H4]. split; [congruence | eapply perm_trans; eassumption]. Qed.
+
+Theorem obs_equiv_refl a : obs_equiv a a.
+Proof. unfold obs_equiv, sum_equiv. repeat split; try apply Permutation_refl. Qed.
+Theorem obs_equiv_sym a b : obs_equiv a b -> obs_equiv b a.
+Proof.
+  unfold obs_equiv, sum_equiv. intros (H1 & H2 & H3 & (R & F & Er & Sk & X & U) & H5 & H6 & H7 & H8).
+  rewrite <- H3. repeat split; try (symmetry; assumption); try (apply Permutation_sym; assumption);
+    try (apply tail_perm_sym; assumption).
+Qed.
+Theorem obs_equiv_trans a b c : obs_equiv a b -> obs_equiv b c -> obs_equiv a c.
+Proof.
+  unfold obs_equiv, sum_equiv.
+  intros (H1 & H2 & H3 & (R & F & Er & Sk & X & U) & H5 & H6 & H7 & H8)
+         (G1 & G2 & G3 & (R' & F' & Er' & Sk' & X' & U') & G5 & G6 & G7 & G8).
+  rewrite <- H3 in *.
+  repeat split; try congruence; try (eapply perm_trans; eassumption); try (eapply tail_perm_trans; eassumption).
 Qed.
 
 (* ================= the record of a segment ================= *)
@@ -583,6 +664,59 @@ Section Refine.
       + apply IH; [assumption|]. apply Forall_put; [|assumption]. intros k' _. exact Hs.
   Qed.
 
+  (* ---------- reported on the way / reported by stopTestRun ---------- *)
+  Lemma filter_hung_mk (l : list (key * list event)) :
+    filter (@g_hung M) (map mkhung l) = map mkhung l /\ filter (@completed M) (map mkhung l) = [].
+  Proof.
+    induction l as [|x l [IH1 IH2]]; [split; reflexivity|]. simpl. rewrite IH1. split; [reflexivity | exact IH2].
+  Qed.
+
+  (* all tests that never got a final status come after all that did *)
+  Theorem segments_split : forall evs open,
+    segments open evs = filter (@completed M) (segments open evs) ++ filter (@g_hung M) (segments open evs).
+  Proof.
+    induction evs as [|e r IH]; intro open; cbn [segments].
+    - fold mkhung. destruct (filter_hung_mk (rev open)) as [-> ->]. reflexivity.
+    - destruct (e_id e) as [i|]; [|apply IH].
+      destruct (is_final (e_status e)); [|apply IH].
+      cbn [filter completed g_hung negb app]. f_equal. apply IH.
+  Qed.
+
+  Lemma consume_false_length : forall evs tbl,
+    List.length (consume_from parse false tbl evs)
+    = List.length (filter (fun e => has_id e && is_final (e_status e)) evs).
+  Proof.
+    induction evs as [|e r IH]; intro tbl; cbn [consume_from filter]; [reflexivity|].
+    rewrite app_length, IH. unfold step, has_id. destruct (e_id e); cbn [andb snd]; [|reflexivity].
+    rewrite final_table. destruct (is_final (e_status e)); reflexivity.
+  Qed.
+
+  (* stopTestRun only adds the flush of what is still in progress *)
+  Lemma consume_flush : forall evs tbl,
+    consume_from parse true tbl evs = consume_from parse false tbl evs ++ flush (tbl_after parse tbl evs).
+  Proof.
+    induction evs as [|e r IH]; intro tbl; cbn [consume_from tbl_after fold_left]; [reflexivity|].
+    rewrite IH, app_assoc. reflexivity.
+  Qed.
+
+  Theorem refines_parts : forall evs open, wf_open open ->
+    consume_from parse false (map absf open) evs = map (record_of parse) (filter (@completed M) (segments open evs))
+    /\ flush (tbl_after parse (map absf open) evs) = map (record_of parse) (filter (@g_hung M) (segments open evs)).
+  Proof.
+    intros evs open W. apply app_eq_length.
+    - rewrite <- consume_flush, <- map_app, <- segments_split. apply refines_gen; exact W.
+    - rewrite consume_false_length, map_length. symmetry. apply completed_count.
+  Qed.
+
+  (* the callbacks made by the status() calls are the completed tests, in the order of their final events;
+     the callbacks made by stopTestRun are the tests that never completed *)
+  Theorem consume_done evs : consume_from parse false [] evs = done_tests parse evs.
+  Proof. apply (refines_parts evs []). constructor. Qed.
+  Theorem flush_hung evs : flush (tbl_after parse [] evs) = hung_tests parse evs.
+  Proof. apply (refines_parts evs []). constructor. Qed.
+  Theorem tests_split evs : tests parse evs = done_tests parse evs ++ hung_tests parse evs.
+  Proof. unfold tests, done_tests, hung_tests. rewrite <- map_app, <- segments_split. reflexivity. Qed.
+
   (* ---------- StreamSummary ---------- *)
   Definition nonexists (r : rcd) : bool := negb (status_eqb (r_status r) Exists).
   Definition rids_with (p : status -> bool) (ts : list rcd) : list nat := map r_id (filter (fun r => p (r_status r)) ts).
@@ -644,6 +778,51 @@ Section Refine.
     unfold record_of, seg_record. cbn [r_status]. apply last_status_not_exists; [exact H | discriminate].
   Qed.
 
+  Lemma done_hung_not_exists evs :
+    Forall (fun r : rcd => r_status r <> Exists) (done_tests parse (filter not_exists evs))
+    /\ Forall (fun r : rcd => r_status r <> Exists) (hung_tests parse (filter not_exists evs)).
+  Proof. apply Forall_app. rewrite <- tests_split. apply tests_not_exists. Qed.
+
+  (* ---------- per-test blocks of the extended log ---------- *)
+  Notation nostop := (forallb (fun x : logev CT => negb (is_stoptest x))).
+
+  Lemma blocks_concat (log : list (logev CT)) : forall cur bs rest,
+    blocks cur log = (bs, rest) -> cur ++ log = List.concat bs ++ rest.
+  Proof.
+    induction log as [|x r IH]; intros cur bs rest H; cbn [blocks] in H.
+    - inversion H; subst. cbn [List.concat app]. apply app_nil_r.
+    - destruct (is_stoptest x).
+      + destruct (blocks [] r) as [bs' rest'] eqn:B. inversion H; subst.
+        specialize (IH [] _ _ B). cbn [app] in IH. cbn [List.concat]. rewrite <- !app_assoc, <- IH. reflexivity.
+      + specialize (IH _ _ _ H). rewrite <- app_assoc in IH. exact IH.
+  Qed.
+
+  Lemma blocks_nostop (pre : list (logev CT)) : nostop pre = true -> forall cur log, blocks cur (pre ++ log) = blocks (cur ++ pre) log.
+  Proof.
+    induction pre as [|x pre IH]; intros H cur log; [rewrite app_nil_r; reflexivity|].
+    cbn [forallb] in H. apply andb_true_iff in H. destruct H as [Hx Hp].
+    cbn [app blocks]. apply negb_true_iff in Hx. rewrite Hx, (IH Hp), <- app_assoc. reflexivity.
+  Qed.
+
+  Lemma bracket_shape (r : rcd) : r_status r <> Exists ->
+    exists pre, bracket r = pre ++ [LStopTest (r_id r)] /\ nostop pre = true.
+  Proof.
+    intro H. unfold bracket. destruct (spec_outcome (r_status r)) as [o|] eqn:E.
+    - exists (opt_time (r_first r) ++ [LStartTest (r_id r)] ++ opt_time (r_last r)
+              ++ [LOutcome o (r_id r) (r_tags r) (r_details r)]).
+      split; destruct (r_first r), (r_last r); reflexivity.
+    - destruct (r_status r); try discriminate. contradiction.
+  Qed.
+
+  Theorem blocks_brackets (rs : list rcd) tail : Forall (fun r => r_status r <> Exists) rs -> nostop tail = true ->
+    blocks [] (flat_map (@bracket CT) rs ++ tail) = (map (@bracket CT) rs, tail).
+  Proof.
+    intros F T. induction F as [|r rs Hr _ IH]; cbn [flat_map map app].
+    - rewrite <- (app_nil_r tail) at 1. rewrite (blocks_nostop tail T). reflexivity.
+    - destruct (bracket_shape r Hr) as [pre [E P]]. rewrite E, <- !app_assoc, (blocks_nostop pre P).
+      cbn [app blocks is_stoptest]. rewrite IH. reflexivity.
+  Qed.
+
   Theorem s2e_refines evs : strip (s2e_log parse evs) = ext_expected parse evs.
   Proof.
     unfold s2e_log, ext_expected. rewrite !strip_app, consume_refines.
@@ -652,70 +831,163 @@ Section Refine.
 End Refine.
 
 (* ================= the main theorems for C10's instance ================= *)
-Lemma refl_recs l : list_eqb rec_eqb l l = true.
-Proof. apply recs_eqb_spec; reflexivity. Qed.
-Lemma refl_ids l : ids_eqb l l = true.
-Proof. apply nats_eqb_spec; reflexivity. Qed.
-Lemma refl_levs l : list_eqb lev_eqb l l = true.
-Proof. apply levs_eqb_spec; reflexivity. Qed.
+Lemma ids_with_app p (a b : list rec) : ids_with p (a ++ b) = ids_with p a ++ ids_with p b.
+Proof. unfold ids_with. rewrite filter_app, map_app. reflexivity. Qed.
+Lemma ids_with_none (l : list rec) : ids_with no_st l = [].
+Proof. induction l as [|r l IH]; [reflexivity | exact IH]. Qed.
 
-Theorem summary_model_ok (es : list ev) : summary_okb (tests parse10 es) (sum_obs (summarize parse10 es)) = true.
+(* ---- executable statement <-> readable statement ---- *)
+Lemma bucket_okb_spec dn hg p pre fin : bucket_okb dn hg p pre fin = true <-> Bucket_spec dn hg p pre fin.
 Proof.
-  unfold summarize. rewrite consume_refines, fold_gather by reflexivity.
-  unfold summary_okb, sum_obs, was_successful.
-  cbn [so_run so_failures so_errors so_skipped so_xfail so_uxs so_ok s_run s_failures s_errors s_skipped s_xfail
-       s_uxsuccess summary0 app Nat.add].
-  change (rids_with nat ?p ?t) with (ids_with p t). unfold is_st.
-  rewrite Nat.eqb_refl, !refl_ids. cbn [andb orb].
-  destruct (existsb (fun r => failing (r_status r)) (tests parse10 es)) eqn:E; [|reflexivity].
-  apply rids_nonempty in E. change (rids_with nat failing ?t) with (ids_with failing t) in E.
-  destruct (ids_with failing (tests parse10 es)); [contradiction | reflexivity].
+  unfold bucket_okb, Bucket_spec, ids_eqb.
+  rewrite !andb_true_iff, !nats_eqb_spec, (perm_eqb_spec Nat.eqb Nat.eqb_eq). split.
+  - intros [[H1 H2] H3]. split; [exact H1|]. exists (skipn (List.length pre) fin). split; [|exact H3].
+    rewrite <- H2 at 1. symmetry. apply firstn_skipn.
+  - intros [H1 [added [-> H3]]]. rewrite firstn_length_app, skipn_length_app. tauto.
 Qed.
 
-Theorem model_meets_spec : forall i, spec_okb i (model i) = true.
+Lemma summary_okb_spec dn hg pre fin ok : summary_okb dn hg pre fin ok = true <-> Summary_spec dn hg pre fin ok.
 Proof.
-  intro i. unfold spec_okb, model. cbn [o_dicts o_sum o_ext].
-  rewrite consume_refines, refl_recs, summary_model_ok, s2e_refines, refl_levs. reflexivity.
+  unfold summary_okb, Summary_spec.
+  rewrite !andb_true_iff, orb_true_iff, !andb_true_iff, !Nat.eqb_eq, !bucket_okb_spec.
+  assert (W : (if existsb (fun r => failing (r_status r)) (dn ++ hg) then negb ok else true) = true
+              <-> ((exists r, In r (dn ++ hg) /\ failing (r_status r) = true) -> ok = false)).
+  { destruct (existsb (fun r => failing (r_status r)) (dn ++ hg)) eqn:X.
+    - apply existsb_exists in X. rewrite negb_true_iff. tauto.
+    - split; [|reflexivity]. intros _ [r [Hin Hf]].
+      assert (Y : existsb (fun r => failing (r_status r)) (dn ++ hg) = true) by (apply existsb_exists; eauto).
+      congruence. }
+  rewrite W. tauto.
+Qed.
+
+Lemma extflush_okb_spec hg log : Forall (fun r : rec => r_status r <> Exists) hg ->
+  extflush_okb hg log = true
+  <-> exists hs, Permutation hs hg /\ log = flat_map bracket hs ++ [LStopRun].
+Proof.
+  intro NE. unfold extflush_okb. split.
+  - destruct (blocks [] log) as [bs rest] eqn:B. rewrite andb_true_iff, levs_eqb_spec,
+      (perm_eqb_spec (list_eqb lev_eqb) levs_eqb_spec). intros [P ->].
+    apply Permutation_map_inv in P. destruct P as [hs [-> P]].
+    exists hs. split; [apply Permutation_sym; exact P|].
+    apply blocks_concat in B. cbn [app] in B. rewrite B, flat_map_concat_map. reflexivity.
+  - intros [hs [P ->]].
+    rewrite blocks_brackets; [| | reflexivity].
+    + rewrite andb_true_iff, levs_eqb_spec, (perm_eqb_spec (list_eqb lev_eqb) levs_eqb_spec).
+      split; [apply Permutation_map; exact P | reflexivity].
+    + eapply Permutation_Forall; [apply Permutation_sym; exact P | exact NE].
+Qed.
+
+Theorem spec_okb_spec : forall i o, spec_okb i o = true <-> Spec i o.
+Proof.
+  intros i o. unfold spec_okb, Spec. cbv zeta.
+  rewrite !andb_true_iff, recs_eqb_spec, levs_eqb_spec, (perm_eqb_spec rec_eqb rec_eqb_spec), summary_okb_spec,
+    (extflush_okb_spec _ _ (proj2 (done_hung_not_exists nat nat parse10 (evs i)))).
+  tauto.
 Qed.
 
 Theorem spec_okb_sound : forall i o, spec_okb i o = true -> Spec i o.
+Proof. intros i o. apply spec_okb_spec. Qed.
+
+(* ---- the model meets the statement ---- *)
+Lemma model_summary (es : list ev) :
+  Summary_spec (done_tests parse10 es) (hung_tests parse10 es)
+    (sum_lists (fold_left gather (consume_from parse10 false [] es) summary0))
+    (sum_lists (summarize parse10 es)) (was_successful (summarize parse10 es)).
 Proof.
-  intros i o H. unfold spec_okb in H. rewrite !andb_true_iff in H. destruct H as [[H1 H2] H3].
-  apply recs_eqb_spec in H1. apply levs_eqb_spec in H3.
-  split; [exact H1|]. split; [|exact H3].
-  unfold summary_okb in H2. rewrite !andb_true_iff in H2.
-  destruct H2 as [[[[[R S] X] U] EF] W].
-  apply Nat.eqb_eq in R. apply nats_eqb_spec in S. apply nats_eqb_spec in X. apply nats_eqb_spec in U.
-  repeat split; try assumption.
-  - apply orb_true_iff in EF. destruct EF as [EF|EF]; apply andb_true_iff in EF; destruct EF as [A B];
-      apply nats_eqb_spec in A; apply nats_eqb_spec in B; [left | right]; split; assumption.
+  unfold summarize. rewrite consume_refines, consume_done, tests_split.
+  set (dn := done_tests parse10 es). set (hg := hung_tests parse10 es).
+  rewrite !fold_gather by reflexivity.
+  unfold Summary_spec, Bucket_spec, sum_lists, was_successful.
+  cbn [sl_run sl_failures sl_errors sl_skipped sl_xfail sl_uxs s_run s_failures s_errors s_skipped s_xfail
+       s_uxsuccess summary0 app Nat.add].
+  change (rids_with nat ?p ?t) with (ids_with p t). unfold is_st.
+  change (nonexists nat) with counted.
+  rewrite !ids_with_app, !ids_with_none, filter_app, app_length.
+  assert (B : forall p, ids_with p dn = ids_with p dn
+                        /\ exists added, ids_with p dn ++ ids_with p hg = ids_with p dn ++ added
+                                          /\ Permutation added (ids_with p hg)).
+  { intro p. split; [reflexivity|]. eexists; split; [reflexivity | apply Permutation_refl]. }
+  split; [reflexivity|]. split; [reflexivity|]. split; [apply B|]. split; [apply B|]. split; [apply B|]. split.
+  - left. split; [apply B|]. split; [reflexivity|]. exists []. split; [reflexivity | apply Permutation_refl].
   - intros [r [Hin Hf]].
-    assert (Hx : existsb (fun r => failing (r_status r)) (tests parse10 (evs i)) = true)
-      by (apply existsb_exists; exists r; split; assumption).
-    rewrite Hx in W. destruct (so_ok (o_sum o)); [discriminate | reflexivity].
+    assert (E : existsb (fun r => failing (r_status r)) (dn ++ hg) = true) by (apply existsb_exists; eauto).
+    apply rids_nonempty in E. change (rids_with nat failing ?t) with (ids_with failing t) in E.
+    rewrite ids_with_app in E.
+    destruct (ids_with failing dn ++ ids_with failing hg); [contradiction | reflexivity].
 Qed.
 
+Theorem model_Spec : forall i, Spec i (model i).
+Proof.
+  intro i. unfold Spec, model. cbv zeta. cbn [o_dicts o_flush o_pre o_sum o_ok o_ext o_extflush].
+  destruct (done_hung_not_exists nat nat parse10 (evs i)) as [ND NH].
+  split; [apply consume_done|]. split; [rewrite flush_hung; apply Permutation_refl|].
+  split; [apply model_summary|]. split.
+  - rewrite consume_done, strip_app, strip_replays by exact ND. reflexivity.
+  - exists (hung_tests parse10 (filter not_exists (evs i))). split; [apply Permutation_refl|].
+    rewrite flush_hung, strip_app, strip_replays by exact NH. reflexivity.
+Qed.
+
+Theorem model_meets_spec : forall i, spec_okb i (model i) = true.
+Proof. intro i. apply spec_okb_spec. apply model_Spec. Qed.
+
+(* ---- the statement does not distinguish observations that obs_eqb identifies ---- *)
+Lemma bucket_spec_equiv dn hg p pre fa fb :
+  tail_perm (List.length pre) fa fb -> Bucket_spec dn hg p pre fa -> Bucket_spec dn hg p pre fb.
+Proof.
+  intros [T1 T2] [H1 [added [-> H3]]]. split; [exact H1|].
+  rewrite firstn_length_app in T1. rewrite skipn_length_app in T2.
+  exists (skipn (List.length pre) fb). split.
+  - rewrite T1 at 1. symmetry. apply firstn_skipn.
+  - eapply perm_trans; [apply Permutation_sym; exact T2 | exact H3].
+Qed.
+
+Theorem Spec_respects_equiv : forall i a b, obs_equiv a b -> Spec i a -> Spec i b.
+Proof.
+  intros i a b (H1 & H2 & H3 & (R & F & Er & Sk & X & U) & H5 & H6 & H7 & H8).
+  unfold Spec. cbv zeta. intros (S1 & S2 & S3 & S4 & hs & P & S5).
+  destruct (done_hung_not_exists nat nat parse10 (evs i)) as [_ NH].
+  split; [congruence|].
+  split; [eapply perm_trans; [apply Permutation_sym; exact H2 | exact S2]|].
+  split; [|split; [congruence|]].
+  - rewrite <- H3, <- H5. unfold Summary_spec in *.
+    destruct S3 as (A1 & A2 & A3 & A4 & A5 & A6 & A7).
+    split; [exact A1|]. split; [congruence|].
+    split; [eapply bucket_spec_equiv; eassumption|].
+    split; [eapply bucket_spec_equiv; eassumption|].
+    split; [eapply bucket_spec_equiv; eassumption|].
+    split; [|exact A7].
+    destruct A6 as [[B1 B2]|[B1 B2]]; [left | right]; split; eapply bucket_spec_equiv; eassumption.
+  - unfold ext_blocks in H7, H8. rewrite S5 in H7, H8.
+    assert (NE : Forall (fun r : rec => r_status r <> Exists) hs)
+      by (eapply Permutation_Forall; [apply Permutation_sym; exact P | exact NH]).
+    rewrite (blocks_brackets nat hs [LStopRun] NE eq_refl) in H7, H8. cbn [fst snd] in H7, H8.
+    destruct (blocks [] (strip (o_extflush b))) as [bs rest] eqn:B. cbn [fst snd] in H7, H8. subst rest.
+    apply Permutation_sym, Permutation_map_inv in H7. destruct H7 as [hs' [-> P']].
+    exists hs'. split; [eapply perm_trans; [apply Permutation_sym; exact P' | exact P]|].
+    apply blocks_concat in B. cbn [app] in B. rewrite B, flat_map_concat_map. reflexivity.
+Qed.
+
+Theorem spec_okb_respects_eqb : forall i a b, obs_eqb a b = true -> spec_okb i a = spec_okb i b.
+Proof.
+  intros i a b H. apply obs_eqb_spec in H. apply eq_true_iff_eq. rewrite !spec_okb_spec.
+  split; apply Spec_respects_equiv; [exact H | apply obs_equiv_sym; exact H].
+Qed.
 
 (* ================= reports are made on the way ================= *)
 Section Online.
   Variable M : Type.
   Variable CT : Type.
   Variable parse : option M -> CT.
-  (* self._inprogress after a prefix of the stream *)
-  Definition tbl_after (tbl : list (key * rcd CT)) (es : list (event M)) : list (key * rcd CT) :=
-    fold_left (fun t e => fst (step parse t e)) es tbl.
   (* what has been handed to on_test when a prefix has been consumed does not depend on what follows, and
      stopTestRun only adds the flush of what is still in progress *)
   Theorem consume_online : forall (a b : list (event M)) tbl stop,
     consume_from parse stop tbl (a ++ b)
-    = consume_from parse false tbl a ++ consume_from parse stop (tbl_after tbl a) b.
+    = consume_from parse false tbl a ++ consume_from parse stop (tbl_after parse tbl a) b.
   Proof.
     induction a as [|e a IH]; intros b tbl stop; [reflexivity|].
     cbn [app consume_from tbl_after fold_left]. rewrite IH, app_assoc. reflexivity.
   Qed.
 End Online.
-Arguments tbl_after {M CT}.
-
 Arguments has_id {M}. Arguments has_key {M}. Arguments of_key {M}. Arguments seg_ok {M}.
 
 (* ================= statements in the form Props/C10.v gives them ================= *)
